@@ -1,7 +1,7 @@
 (* C08/Property.v — the property theorems and nothing else. *)
-From Coq Require Import List Arith Permutation Reals.
+From Coq Require Import List Arith Permutation Reals ZArith.
 Import ListNotations.
-From SM Require Import Base.Num C08.Model C08.Proofs.
+From SM Require Import Base.Num C08.Model C08.Proofs Gen.C08_code C08.Translated.
 
 (* Routing: for every number of parts, every parameter / magnetic-slot count
    and both operations, the index arithmetic hands part k exactly its own
@@ -39,3 +39,27 @@ Theorem C08_old_accumulator_refuted :
   exists rs, combine_prod_old ROps 1%R 0%R rs <> (1 * Rprod rs + 0)%R.
 Proof. exact combine_prod_old_refuted. Qed.
 Print Assumptions C08_old_accumulator_refuted.
+
+(* ---- the index arithmetic as it is WRITTEN in mixture.py ----
+   Gen/C08_code.v is regenerated on every run from the text of _MixtureParts (__init__, __iter__, __next__,
+   _part_values, _part_details; Python-ast translation of the integer arithmetic, over Z).  After k calls of
+   __next__ the iterator stands at the model's par_index and magnetic offset of part k, for every list of parts
+   and both operations; and the slices taken there are the ones of C08.Model.part_values - which C08_routing shows
+   to be exactly part k's own scale, parameters, spin state, magnetic triples and the shared weights - together
+   with the part's rows of the lengths/offsets table. *)
+Theorem C08_code_iterator : forall (sum : bool) (parts : list (nat * nat)) k, translated = true -> k <= length parts ->
+  let spin := code_spin_index (Z.of_nat (total sum (np_of parts))) in
+  spin = Z.of_nat (total sum (np_of parts) + 2) /\
+  code_iter sum parts k (code_init spin) =
+  (Z.of_nat (par_index sum (np_of parts) k), Z.of_nat (total sum (np_of parts) + 2 + 4 + mag_offset (nm_of parts) k)).
+Proof. exact code_iterator_is_model. Qed.
+Print Assumptions C08_code_iterator.
+
+Theorem C08_code_slices : forall (sum : bool) (pi mi n m spin nvalues nw : nat), translated = true ->
+  (if sum then 1 else 2) <= pi ->
+  code_slices sum (Z.of_nat spin) (Z.of_nat pi) (Z.of_nat mi) (Z.of_nat n) (Z.of_nat m) (Z.of_nat nvalues) (Z.of_nat nw) =
+  map Z.of_nat
+    [ pi; pi + (if sum then 1 else 0); pi + n + (if sum then 1 else 0); spin; spin + 4; mi; mi + 3 * m;
+      nvalues; nvalues + 2 * nw; pi + (if sum then 1 else 0) - 2; pi + (if sum then 1 else 0) - 2 + n ].
+Proof. exact code_slices_are_model. Qed.
+Print Assumptions C08_code_slices.
